@@ -605,4 +605,4 @@ RULE = ("skip list: histories = (comparator asc/desc/k mod 3/k div 2, seed of x/
 ASSUMPTIONS = ["skip list: golang.org/x/exp/rand only contributes the tower height of each Insert (read back from the dump and given to the model)"]
 TRUSTED = ["skip list: ocaml/drv_skip.ml, harness/c05skip, hooks/internal/list/x_verif.go + hooks/list/x_skip_verif.go (read-only dump, pass-throughs), checks/c05_skip.py",
            "skip list: the tie between the real pointers and the heights model is the per-operation comparison of all 32 chains (checked every run, not a theorem); "
-           "a statement-by-statement pointer model is compared too (every run) and proved equal to the heights model only up to 5 mutating operations (ptr_matches_heights_bounded)"]
+           "a statement-by-statement pointer model (heap of nodes with Forward arrays) is compared too (every run) and is PROVED to simulate the heights model for all histories (props/C05_skipptr.v: ptr_simulates_heights)"]
